@@ -14,7 +14,7 @@
    are not modelled: only which inputs are replaced by their first element is. *)
 From Coq Require Import ZArith QArith List Bool.
 Import ListNotations.
-From GV Require Import Common.Wire.
+From GV Require Import Common.Wire gen.Gen_coordcomp.
 Open Scope Q_scope.
 
 Definition vec := list Q.
@@ -171,6 +171,7 @@ Definition over_view {A} (sh : list nat) (view : list ventry) (f : list (list na
 (* explicit flat arrays (already broadcast to one common length) as inputs of the helpers *)
 Definition flat_arr (l : list Q) : arr := fun idx => nth (nth 0 idx 0%nat) l 0.
 
+
 (* ---------- wire ---------- *)
 Definition dec_q (t : tree) : Q :=
   match t with
@@ -200,8 +201,119 @@ Definition bmat_of (t : tree) : nat -> nat -> bool :=
   fun w p => negb (tag (nth p (kids (nth w (kids t) (T 0 []))) (T 0 [])) =? 0)%Z.
 Definition nat_of (t : tree) : nat := Z.to_nat (tag t).
 
+(* ---------- histories of one dataset (round 4) ----------
+   The state a sequence of public operations can change: the coordinate object (its identity and its value), the shape,
+   the world components (how many there are: they are rebuilt by Data._update_world_components only) and the automatic links
+   (which keep a reference to the coordinate object they were built with: CoordinateComponentLink.coords).
+   A CoordinateComponent has NO state of its own besides (world, _data, axis): Gen_coordcomp (translated from the source, fail-closed)
+   says that `data` / `__getitem__` are `_calculate` evaluated at the time of the read. *)
+Record hstate := mkH {
+  hs_cid : Z;               (* identity of data.coords (0 = None) *)
+  hs_coords : coords;
+  hs_shape : list nat;
+  hs_wn : nat;              (* number of world components *)
+  hs_lcid : Z;              (* the coordinate object the links were built with *)
+  hs_lcoords : coords;
+  hs_ln : nat               (* number of (pixel->world, world->pixel) link pairs *)
+}.
+
+Inductive hop :=
+| HRead (v : option (list ventry))                  (* data[world a] / data[world a, view], every link under the view *)
+| HReadFancy (ins : list vec)                       (* data[world a, (index arrays)] *)
+| HUpdateValues (cid : Z) (c : coords) (sh : list nat)   (* data.update_values_from_data(other): other.coords, other.shape *)
+| HSetCoords (cid : Z) (c : coords)                 (* data.coords = obj *)
+| HSibling (sh : list nat) (v : option (list ventry)) (* the same reads on ANOTHER dataset that shares the coordinate object (other shape) *)
+| HKeep.                                            (* update_components / add_component / remove_component / update_id *)
+
+(* Data._update_world_components(self.ndim) followed by _set_up_coordinate_component_links *)
+Definition hrebuild (s : hstate) : hstate :=
+  let n := if (hs_cid s =? 0)%Z then 0%nat else length (hs_shape s) in
+  mkH (hs_cid s) (hs_coords s) (hs_shape s) n (hs_cid s) (hs_coords s) n.
+
+(* a dataset with values has at least this many components *)
+Definition hncomp : Z := 1.
+
+(* the setter of Data.coords, its condition translated from the source *)
+Definition hset_coords (s : hstate) (cid : Z) (c : coords) : hstate :=
+  if coords_setter_rebuilds true (negb (hs_cid s =? cid)%Z) then
+    let s1 := mkH cid c (hs_shape s) (hs_wn s) (hs_lcid s) (hs_lcoords s) (hs_ln s) in
+    if (coords_setter_needs_components <? hncomp)%Z then hrebuild s1 else s1
+  else s.
+
+(* update_values_from_data: self._shape = data._shape ; ... ; self.coords = data.coords *)
+Definition hupdate_values (s : hstate) (cid : Z) (c : coords) (sh : list nat) : hstate :=
+  hset_coords (mkH (hs_cid s) (hs_coords s) sh (hs_wn s) (hs_lcid s) (hs_lcoords s) (hs_ln s)) cid c.
+
+Definition hbuild (cid : Z) (c : coords) (sh : list nat) : hstate :=
+  hrebuild (mkH cid c sh 0 0 (Identity 0) 0).
+
+(* the world -> pixel link built with coordinate object lc, evaluated on a dataset whose current object is c *)
+Definition link_w2p2 (lc c : coords) (ss : list (list nat * bool)) (i : nat) : arr :=
+  let from_needed := dependent_axes lc i in
+  let args2 := fun j : nat => if memn j from_needed then world_value c ss j else (fun _ => 0) in
+  w2p_single lc (fun iw => args2 (cdim lc - 1 - iw)%nat) (cdim lc - 1 - i)%nat.
+
+Definition vw_of (v : option (list ventry)) : list ventry := match v with Some vw => vw | None => [] end.
+
+(* CoordinateComponent._calculate(view) of world axis a, now *)
+Definition hcalc (s : hstate) (a : nat) (v : option (list ventry)) : tree :=
+  over_view (hs_shape s) (vw_of v) (fun ss => world_value (hs_coords s) ss a) enc_vals (err 2).
+(* Data.get_data: comp.data without a view, comp[view] with one *)
+Definition hread_world (s : hstate) (v : option (list ventry)) (a : nat) : tree :=
+  match v with None => cc_data (hcalc s a) | Some key => cc_getitem (hcalc s a) key end.
+Definition hread_link (s : hstate) (p2w_dir : bool) (v : option (list ventry)) (a : nat) : tree :=
+  over_view (hs_shape s) (vw_of v)
+            (fun ss => if p2w_dir then link_p2w (hs_lcoords s) ss a else link_w2p2 (hs_lcoords s) (hs_coords s) ss a)
+            enc_vals (err 2).
+Definition hread_fancy (s : hstate) (ins : list vec) (a : nat) : tree :=
+  let n := length (hs_shape s) in
+  let len := length (nth 0 ins []) in
+  let f := p2w_single (hs_coords s) (fun k => flat_arr (nth k ins [])) (n - 1 - a)%nat in
+  enc_vals [len] (map (fun i => f [i]) (seq 0 len)).
+
+Definition hobs (s : hstate) (w p q : list tree) : tree :=
+  T 0 [leaf (Z.of_nat (hs_wn s)); leaf (2 * Z.of_nat (hs_ln s)); T 0 w; T 0 p; T 0 q].
+
+Definition hstep (s : hstate) (o : hop) : hstate * option tree :=
+  match o with
+  | HRead v => (s, Some (hobs s (map (hread_world s v) (seq 0 (hs_wn s)))
+                                (map (hread_link s true v) (seq 0 (hs_ln s)))
+                                (map (hread_link s false v) (seq 0 (hs_ln s)))))
+  | HReadFancy ins => (s, Some (hobs s (map (hread_fancy s ins) (seq 0 (hs_wn s))) [] []))
+  | HSibling sh v => let b := hbuild (hs_cid s) (hs_coords s) sh in
+                     (s, Some (hobs b (map (hread_world b v) (seq 0 (hs_wn b)))
+                                      (map (hread_link b true v) (seq 0 (hs_ln b)))
+                                      (map (hread_link b false v) (seq 0 (hs_ln b)))))
+  | HUpdateValues cid c sh => (hupdate_values s cid c sh, None)
+  | HSetCoords cid c => (hset_coords s cid c, None)
+  | HKeep => (s, None)
+  end.
+
+Fixpoint hrun (s : hstate) (h : list hop) : list tree :=
+  match h with
+  | [] => []
+  | o :: r => let '(s', out) := hstep s o in
+              match out with Some t => t :: hrun s' r | None => hrun s' r end
+  end.
+
+Definition hfinal (s : hstate) (h : list hop) : hstate := fold_left (fun s o => fst (hstep s o)) h s.
+
+Definition dec_hop (t : tree) : hop :=
+  match t with
+  | T 1 [] => HRead None
+  | T 1 (vw :: _) => HRead (Some (dec_view vw))
+  | T 2 (arrs :: _) => HReadFancy (map dec_vec (kids arrs))
+  | T 3 [cid; c; sh] => HUpdateValues (tag cid) (dec_coords c) (dec_nats sh)
+  | T 4 [cid; c] => HSetCoords (tag cid) (dec_coords c)
+  | T 7 [sh] => HSibling (dec_nats sh) None
+  | T 7 (sh :: vw :: _) => HSibling (dec_nats sh) (Some (dec_view vw))
+  | _ => HKeep
+  end.
+
 Definition run_case (t : tree) : tree :=
   match t with
+  (* a history of one dataset: (object id, coords, shape) at construction, then the operations; one result per read *)
+  | T 6 [T _ [cid; c; sh]; ops] => T 0 (hrun (hbuild (tag cid) (dec_coords c) (dec_nats sh)) (map dec_hop (kids ops)))
   (* dependent_axes of a raw boolean correlation matrix *)
   | T 1 [bm; ax] => zs (map Z.of_nat (dependent_axes_cm (length (kids bm)) (bmat_of bm) (nat_of ax)))
   (* data[world a, view] *)
